@@ -23,6 +23,9 @@ Fixpoint of_scmd (c : scmd) : sx :=
   | SRaise => L [I 8%Z]
   | SExit => L [I 9%Z]
   | SForceQuit => L [I 10%Z]
+  | SSysExit => L [I 16%Z]
+  | SRedrawOther s => L [I 17%Z; of_nat s]
+  | SCloseOther s => L [I 18%Z; of_nat s]
   | SGetUserInput => L [I 11%Z]
   | SSetInputRequired b => L [I 12%Z; of_bool b]
   | SSetAnswer a => L [I 13%Z; of_answer a]
@@ -44,7 +47,7 @@ Definition of_spec (sp : screen_spec) : sx :=
       of_list (fun kv => L [of_str (fst kv); of_cmds (fst (snd kv)); of_ret (snd (snd kv))]) (sc_input sp);
       L [of_cmds (fst (sc_input_default sp)); of_opt of_ret (snd (sc_input_default sp))];
       of_bool (sc_prompt_none sp); of_bool (sc_input_required sp); of_bool (sc_no_separator sp);
-      of_bool (sc_skip_check sp); of_nat (sc_pages sp) ].
+      of_bool (sc_skip_check sp); of_nat (sc_pages sp); of_answer (sc_answer0 sp) ].
 
 Definition as_cond (s : sx) : option acond :=
   match s with
